@@ -59,6 +59,9 @@ func main() {
 		progress  = flag.Int("progress", 30, "seconds between progress lines (0 = none)")
 		tier      = flag.Int("tier", 0, "0 quick, 1 thorough (verifrt.Tier)")
 		mapOrder  = flag.Bool("maporder", false, "explore map iteration orders")
+		altMs     = flag.Int("alt-ms", 1000, "per-query timeout of the incremental session of the alternate solver")
+		keepGlob  = flag.Bool("keep-globals", false, "do not reset package-level state between paths")
+		noAltSess = flag.Bool("no-alt-session", false, "hard-arithmetic queries go straight to the one-shot portfolio")
 	)
 	flag.Parse()
 	debug.SetGCPercent(200)
@@ -214,7 +217,7 @@ func main() {
 		c := &interp.Config{
 			Workers: *workers, TimeoutMs: *timeoutMs, MaxSteps: *maxSteps, MaxDepth: *maxDepth, MaxAlloc: *maxAlloc,
 			MaxPaths: *maxPaths, MaxFailures: *maxFail, Solver: *solver, AltSolver: *alt, Verbose: *verbose, SolverLog: *slog,
-			Concrete: conc, MapOrderNondet: *mapOrder, OneShotMs: *oneShotMs, OneShotSolvers: strings.Split(*oneShot, ","), DumpDir: *dumpDir, Tier: *tier, Progress: *progress, NoWitness: *noWitness,
+			Concrete: conc, MapOrderNondet: *mapOrder, OneShotMs: *oneShotMs, OneShotSolvers: strings.Split(*oneShot, ","), DumpDir: *dumpDir, Tier: *tier, Progress: *progress, NoWitness: *noWitness, AltMs: *altMs, NoAltSession: *noAltSess, KeepGlobals: *keepGlob,
 		}
 		if *deadline > 0 {
 			c.Deadline = time.Now().Add(time.Duration(*deadline) * time.Second)
